@@ -278,13 +278,19 @@ PROPS["C14"] = {
              "c14_wire (a small run in the quick tier, the full one in the thorough tier): the real broker binary (serving a non-empty metrics log) on a loopback port, raw HTTP/1.1 over TCP: sequences of 1-8 requests on one "
              "connection (keep-alive or pipelined), Expect: 100-continue, chunked bodies, bodies of 99 999 / 100 000 / 100 001 / 300 000 bytes, "
              "legacy offers with any NAT header, mutated polls; every request must get a response that http.ReadResponse parses completely, "
-             "the process must keep accepting connections and the canaries must behave."),
+             "the process must keep accepting connections and the canaries must behave. "
+             "c14_metrics_growth: the broker binary serving a 24 MB metrics log (larger than the loopback socket buffers) that the harness appends to at a "
+             "generated point of the download (before the request, right after the response header, after k body bytes); strictly serial sequences of "
+             "GET/HEAD /metrics and GET /robots.txt on one connection; oracle: every response is read completely without error, a /metrics body is a copy of the log "
+             "up to a point between its size at the request and its size after the response, and the next request on the connection is answered. "
+             "Non-trivial = at least one append during a download."),
     "assumptions": ["the in-package units deliver requests to the handlers through httptest (no TCP); connection-level behaviour (keep-alive, pipelining, dropped connections, what follows a response on the wire) is covered by the wire unit against the broker binary"],
     "units": [
         U("c14_http", "inpkg", "broker", "^TestVerifC14HTTP$", (800, 6000), timeout=(300, 3000), wedge_is_violation=True),
         U("c14_legacy", "inpkg", "broker", "^TestVerifC14Legacy$", (800, 6000), timeout=(300, 3000), wedge_is_violation=True),
         U("c14_concurrent", "inpkg", "broker", "^TestVerifC14Concurrent$", (40, 400), shards=(2, 4), timeout=(400, 3000)),
         U("c14_wire", "ext", "c14wire", "^TestVerifC14Wire$", (60, 400), shards=(2, 6), timeout=(400, 1200)),
+        U("c14_metrics_growth", "ext", "c14wire", "^TestVerifC14MetricsGrowth$", (20, 150), shards=(1, 3), timeout=(400, 1200)),
     ],
 }
 META["C14"] = {
